@@ -181,7 +181,44 @@ func (x *Exec) callFunc(st *State, fr *frame, site ssa.Instruction, fn *ssa.Func
 		x.runFunc(st, fn, args, bind, fr.depth+1, con, false, wrapK)
 		return
 	}
+	if genericPure(fn) {
+		// library function of a side-effect-free package over scalars and strings: an uninterpreted function of
+		// its arguments (listed in the trusted base of the run)
+		gc := &Contract{Func: name, File: "builtin:generic-pure", Assumed: true, Pure: true, Lets: map[string]*Sx{}, Loops: map[int]*LoopSpec{}}
+		s.Assumed["generic pure library function "+name+" (uninterpreted function of its scalar/string arguments)"] = true
+		x.applyContract(st, fr, gc, name, fn.Signature, fn, args, k)
+		return
+	}
 	subsetf("no contract for %s", name)
+}
+
+var purePkgs = map[string]bool{"strings": true, "strconv": true, "unicode": true, "unicode/utf8": true, "math": true, "math/bits": true, "path": true}
+
+// genericPure: exported function of a side-effect-free standard package whose parameters and results are all
+// of basic type (or error as a result).
+func genericPure(fn *ssa.Function) bool {
+	if fn.Pkg == nil || !purePkgs[fn.Pkg.Pkg.Path()] || fn.Signature.Recv() != nil || fn.Signature.Variadic() {
+		return false
+	}
+	basic := func(t types.Type) bool {
+		_, ok := t.Underlying().(*types.Basic)
+		return ok
+	}
+	for i := 0; i < fn.Signature.Params().Len(); i++ {
+		if !basic(fn.Signature.Params().At(i).Type()) {
+			return false
+		}
+	}
+	res := fn.Signature.Results()
+	if res.Len() == 0 {
+		return false
+	}
+	for i := 0; i < res.Len(); i++ {
+		if t := res.At(i).Type(); !basic(t) && !isErrorType(t) {
+			return false
+		}
+	}
+	return true
 }
 
 // autoInline: small loop-free repo functions without contract are executed in place
